@@ -214,6 +214,8 @@ pub struct FaultCfg {
     pub recv_err_w: u32,
     /// weights of scheduling delays when a task becomes runnable [0, 1us, 20us, 300us, 2ms]
     pub sched_w: [u32; 5],
+    /// the delays those weights select (ns)
+    pub sched_table: [Ns; 5],
     /// weight of a long stall (vs 1000) when a task becomes runnable
     pub stall_w: u32,
     /// weights of timer lateness [1us, 1ms, 4ms]
@@ -241,6 +243,7 @@ impl Default for FaultCfg {
             budget: 0,
             recv_err_w: 0,
             sched_w: [1, 0, 0, 0, 0],
+            sched_table: [0, US, 20 * US, 300 * US, 2 * MS],
             stall_w: 0,
             late_w: [1, 0, 0],
             disk_w: 0,
@@ -417,7 +420,12 @@ impl Inner {
             self.stats.shape = mix(self.stats.shape, code);
         }
         if let Some(tr) = &mut self.trace {
-            if tr.len() < 20_000 {
+            // keep the head and (by dropping from the middle) the tail of long traces
+            if tr.len() >= 400_000 {
+                tr.drain(2_000..102_000);
+                tr.insert(2_000, "... (100000 events elided) ...".to_string());
+            }
+            {
                 let mut line = fmt_ev(&st, &ev);
                 if !self.sb_root.is_empty() && line.contains(&self.sb_root) {
                     line = line.replace(&self.sb_root, "$SB");
@@ -473,7 +481,7 @@ impl Inner {
         if w.iter().filter(|x| **x > 0).count() > 1 {
             self.stats.sched_decisions += 1;
         }
-        let mut d = [0, US, 20 * US, 300 * US, 2 * MS][i];
+        let mut d = self.cfg.sched_table[i];
         if self.cfg.stall_w > 0 && self.faults_allowed() {
             let sw = [1000 - self.cfg.stall_w.min(999), self.cfg.stall_w];
             if self.choices.choose("sched.stall", &sw) == 1 {
